@@ -9,9 +9,9 @@ OUT=/verif/seeded/$NAME
 EVAL=/tmp/verif_eval_$NAME
 mkdir -p $OUT
 # the agent's own mutant.patch is authoritative (the worktree state may have been disturbed); fall back to the worktree diff
-if [ -s $WT/mutant.patch ]; then cp $WT/mutant.patch $OUT/patch.diff; else ( cd $WT && git diff -- src ) > $OUT/patch.diff; fi
+if [ -s $WT/mutant.patch ]; then cp $WT/mutant.patch $OUT/patch.diff; elif [ -s $WT/patch.diff ]; then [ $WT/patch.diff -ef $OUT/patch.diff ] || cp $WT/patch.diff $OUT/patch.diff; else ( cd $WT && git diff -- src ) > $OUT/patch.diff; fi
 [ -s $OUT/patch.diff ] || { echo "empty patch"; exit 9; }
-cp $WT/demo.py $OUT/demo.py 2>/dev/null
+[ $WT/demo.py -ef $OUT/demo.py ] || cp $WT/demo.py $OUT/demo.py 2>/dev/null
 git -C /repo worktree remove --force $EVAL 2>/dev/null
 git -C /repo worktree add -q $EVAL HEAD || exit 9
 cp $OUT/demo.py $EVAL/demo.py
